@@ -166,36 +166,73 @@ def pred_envs(ctx, gen, supp, extra):
     return out
 
 
+SUPPLYABLE = ["bd_address", "adv_data", "scan_data", "profile", "security_database", "public", "synchronous",
+              "applications", "profiles"]      # optional constructor parameters the driver has a value for
+
+
+def path_kwargs(path, opt_params):
+    """branches of a model counterexample (label, taken) -> optional constructor parameters to supply.
+    Labels are the source text of argument tests: `x is not None`, `x is None`, `x`."""
+    kw, unmapped = [], []
+    for label, taken in path:
+        m = re.match(r"^(\w+) is not None$", label)
+        name, supply = (m.group(1), taken) if m else (None, None)
+        if not m:
+            m = re.match(r"^(\w+) is None$", label)
+            name, supply = (m.group(1), not taken) if m else (None, None)
+        if not m:
+            m = re.match(r"^(\w+)$", label)
+            name, supply = (m.group(1), taken) if m else (None, None)
+        if name is None or name not in opt_params:
+            continue            # not a test on a constructor argument (isinstance, loop ...)
+        if supply:
+            (kw if name in SUPPLYABLE else unmapped).append(name)
+    return sorted(set(kw)), sorted(set(unmapped))
+
+
 def run_envs(ctx, items, supports, extra, with_dom):
     """constructors / operations: every assignment of the bits mentioned by the generated
-    program and by its requirement x R random settings of the others"""
+    program and by its requirement x settings of the others (all 0, all 1, random).
+    Constructors are additionally run with each optional argument supplied (and all of them),
+    with every other command advertised: an optional step taken before a required check shows."""
     rng = ctx.rng
-    R = 12 if ctx.thorough else 2
+    R = 12 if ctx.thorough else 3
     out, seen = [], set()
-    def add(i, cm, cp, dom, why):
-        key = (i, cm, cp, dom)
+    def add(i, cm, cp, dom, why, kw=()):
+        key = (i, cm, cp, dom, tuple(kw))
         if key not in seen:
             seen.add(key)
-            out.append({"i": i, "id": items[i]["id"], "cmds": cm, "caps": cp, "dom": dom,
+            out.append({"i": i, "id": items[i]["id"], "cmds": cm, "caps": cp, "dom": dom, "kw": list(kw),
                         "seed": rng.randrange(1 << 30), "why": why})
     ids = {p["id"]: i for i, p in enumerate(items)}
+    ALL = (1 << 32) - 1
     for e in extra:
         if e["id"] in ids:
-            add(ids[e["id"]], e["cmds"], e["caps"], e.get("dom", True), e.get("why", "corpus"))
+            i = ids[e["id"]]
+            add(i, e["cmds"], e["caps"], e.get("dom", True), e.get("why", "corpus"), e.get("kw", ()))
+            if e.get("why") == "model-witness":
+                # the witness fixes the mentioned bits; also try it with every other command advertised
+                mc = supports[i][0]
+                add(i, e["cmds"] | (ALL & ~mc), e["caps"], e.get("dom", True), "model-witness", e.get("kw", ()))
+                add(i, e["cmds"] | (rng.getrandbits(32) & ~mc), e["caps"], e.get("dom", True), "model-witness", e.get("kw", ()))
     for i, p in enumerate(items):
         mc, mp = supports[i][0], supports[i][1] & 0xFFFFFF
         if len(bits(mc)) + len(bits(mp)) > 10:
             raise C.CheckBroken("%s mentions %d bits: sweep too large" % (p["id"], len(bits(mc)) + len(bits(mp))))
+        opt = [n for n in p.get("opt_params", []) if n in SUPPLYABLE] if with_dom else []
+        variants = [[n] for n in opt] + ([opt] if len(opt) > 1 else [])
         for ac in submasks(mc):
             for ap in submasks(mp):
                 for j in range(R):
-                    oc = 0 if j == 0 else rng.getrandbits(32)
-                    op = 0 if j == 0 else rng.getrandbits(24)
+                    oc = 0 if j == 0 else (ALL if j == 1 else rng.getrandbits(32))
+                    op = 0 if j <= 1 else rng.getrandbits(24)
                     cm, cp = ac | (oc & ~mc), (ap | (op & ~mp)) & 0xFFFFFF
                     add(i, cm, cp, True, "sweep")
                     if with_dom and (j == 0 or ac == mc):
                         add(i, cm, cp, False, "no-domain")
-        add(i, (1 << 32) - 1, 0, True, "everything-advertised")
+                for kw in variants:
+                    add(i, ac | (ALL & ~mc), ap, True, "optional-args", kw)
+        add(i, ALL, 0, True, "everything-advertised")
     return out
 
 
@@ -232,7 +269,7 @@ def run(ctx):
         "Python semantics assumed by the embedding: arbitrary-precision non-negative ints, `and`/`or`/`not` used for their truth value only",
     ]
     ctx.assumptions = ["capability word < 2^24 (it is the low 24 bits of a 32-bit advertised word), command word any natural number",
-                       "constructors are called with their default optional arguments in the runs; the theorems cover every branch on such arguments (GChoice)"]
+                       "the theorems cover every branch on constructor/operation arguments (GChoice); the runs call constructors with default arguments and with each optional argument the driver has a value for (not: existing_connection, connection, stack/gatt classes, pairing, from_json)"]
     proofs_ok, detail = ctx.check_proofs()
     ctx.log("proofs:", proofs_ok, detail.splitlines()[0][:200])
 
@@ -261,8 +298,10 @@ def run(ctx):
         "map (fun k => env_list (Some (bsupp (pred_spec k)))) pred_ids",
         "map (fun k => env_list (Some (bsupp (role_req k)))) ctor_ids",
         "map (fun k => env_list (Some (bsupp (op_req k)))) op_ids",
-        "map (fun k => match assoc k op_specs with Some _ => true | None => false end) op_ids"])
-    d_pred, d_ctor, d_op, enum_bad, missing, ss_pred, ss_ctor, ss_op, op_has_spec = [parse_coq(x) for x in dec]
+        "map (fun k => match assoc k op_specs with Some _ => true | None => false end) op_ids",
+        "map decide_ctor_path gen_ctors", "map decide_op_path gen_ops"])
+    d_pred, d_ctor, d_op, enum_bad, missing, ss_pred, ss_ctor, ss_op, op_has_spec, path_ctor, path_op = [parse_coq(x) for x in dec]
+    wpath = {p["id"]: pa for p, pa in zip(gen.ctors, path_ctor)}
     # bits to sweep = bits mentioned by the generated term (translator) UNION bits mentioned by the Spec
     def usupp(p, ss):
         g = p.get("supp", {"cmds": 0, "caps": 0})
@@ -355,6 +394,11 @@ def run(ctx):
             if k == "pred":
                 wit_pred.append(dict(w, dk=p["domain"]))
             elif k == "ctor":
+                # arguments of the violating path of the guard program
+                kw, unmapped = path_kwargs(wpath.get(p["id"], []), p.get("opt_params", []))
+                w["kw"] = kw
+                if unmapped:
+                    ctx.notes.append("%s: counterexample path needs argument(s) %s for which the driver has no value" % (p["id"], unmapped))
                 wit_ctor.append(w)
             else:
                 wit_op.append(w)
@@ -375,7 +419,7 @@ def run(ctx):
     for part in chunk(penvs, NP):
         jobs.append(("preds", part, {"mode": "eval", "preds": [[e["dk"], e["cmds"], e["caps"], e["seed"]] for e in part]}))
     for part in chunk(cenvs, NP):
-        jobs.append(("ctors", part, {"mode": "eval", "ctors": [[e["id"], e["cmds"], e["caps"], e["dom"], e["seed"]] for e in part]}))
+        jobs.append(("ctors", part, {"mode": "eval", "ctors": [[e["id"], e["cmds"], e["caps"], e["dom"], e["seed"], e["kw"]] for e in part]}))
     jobs.append(("ops", oenvs, {"mode": "eval", "ops": [[e["id"], e["cmds"], e["caps"], e["seed"]] for e in oenvs]}))
     jobs.append(("di", dis, {"mode": "eval", "di": [[e["words"], e["adds"], e["domain"], e["cap"]] for e in dis]}))
     with cf.ThreadPoolExecutor(max_workers=14) as ex:
@@ -386,6 +430,10 @@ def run(ctx):
                 raise C.CheckBroken("driver returned %d results for %d %s cases" % (len(r), len(j[1]), j[0]))
             for e, o in zip(j[1], r):
                 e["obs"] = o
+    skipped_ctor = [e for e in cenvs if "skip" in e["obs"]]
+    cenvs = [e for e in cenvs if "skip" not in e["obs"]]
+    if skipped_ctor:
+        ctx.notes.append("constructor runs skipped (no argument value): %d, e.g. %s" % (len(skipped_ctor), skipped_ctor[0]["obs"]))
     ctx.log("implementation runs done")
 
     # ---- 6/7 oracle + translator validation inside Coq ------------------------------------------
@@ -453,7 +501,9 @@ def run(ctx):
             done.add(e["id"])
             what = ("constructor %s" if kind == "ctor" else "operation %s") % e["id"]
             what += " on an interface that does not advertise what it needs: ended with %s after transmitting %s" % (e["obs"]["r"], e["obs"]["sent"] or "nothing")
-            nviol += ctx.violation(what, {"kind": kind, "id": e["id"], "cmds": e["cmds"], "caps": e["caps"], "dom": e["dom"], "seed": e["seed"]},
+            if e.get("kw"):
+                what += " (constructor called with optional argument(s) %s)" % ", ".join(e["kw"])
+            nviol += ctx.violation(what, {"kind": kind, "id": e["id"], "cmds": e["cmds"], "caps": e["caps"], "dom": e["dom"], "seed": e["seed"], "kw": e.get("kw", [])},
                                    expected="UnsupportedDomain / UnsupportedCapability%s and no domain message" % (" or a failure report" if kind == "op" else ""),
                                    observed=e["obs"])
     # DeviceInfo
@@ -507,6 +557,8 @@ def run(ctx):
         "predicate_true_fraction": round(sum(sum(1 for x in e["obs"] if x is True) for e in penvs if isinstance(e["obs"], list)) / max(1, n_pred_evals), 3),
         "constructor_runs": len(cenvs), "constructor_results": ctor_res,
         "constructor_runs_without_domain": sum(1 for e in cenvs if not e["dom"]),
+        "constructor_runs_with_optional_arguments": sum(1 for e in cenvs if e.get("kw")),
+        "optional_arguments_supplied": sorted({n for e in cenvs for n in e.get("kw", [])}),
         "constructors_completed_at_least_once": len({e["id"] for e in cenvs if e["obs"]["r"] == "ok"}),
         "operation_runs": len(oenvs), "operation_results": op_res,
         "operations_that_transmitted_at_least_once": len(ops_sent),
@@ -581,7 +633,7 @@ def replay(payload):
         if "method" in case:
             print("%s -> %s (expected %s)" % (case["method"], dict(zip(names, r["preds"][0])).get(case["method"]), payload.get("expected")))
     elif k == "ctor":
-        r = C.run_impl("C06.py", {"mode": "eval", "ctors": [[case["id"], case["cmds"], case["caps"], case.get("dom", True), case.get("seed", 1)]]})
+        r = C.run_impl("C06.py", {"mode": "eval", "ctors": [[case["id"], case["cmds"], case["caps"], case.get("dom", True), case.get("seed", 1), case.get("kw", [])]]})
         print("implementation now:", r["ctors"][0], "| expected:", payload.get("expected"))
     elif k == "op":
         r = C.run_impl("C06.py", {"mode": "eval", "ops": [[case["id"], case["cmds"], case["caps"], case.get("seed", 1)]]})
